@@ -270,4 +270,65 @@ theorem chunkBodies_sum (mb n : Nat) : (chunkBodies mb n).sum = n := by
   rw [Nat.mul_comm] at this
   omega
 
+/-- receive loop invariant: every chunk passes the size check and the non-zero limits leave room:
+    `held` + all chunks but the final one ≤ MaxChunkCount, body bytes ≤ MaxMessageSize -/
+theorem recvLoop_ok (a : AlgoParams) (m : Mode) (rv : Ack) (bodies : List Nat) (held sum : Nat)
+    (hfit : ∀ b ∈ bodies, wireLen a m b ≤ (rv.rcv : Int))
+    (hcnt : rv.maxChunks ≠ 0 → held + bodies.length ≤ rv.maxChunks + 1)
+    (hsum : rv.maxMsg ≠ 0 → sum + bodies.sum ≤ rv.maxMsg) :
+    recvLoop rv (bodies.map fun b => (wireLen a m b, b)) held sum = .ok := by
+  induction bodies generalizing held sum with
+  | nil => simp [recvLoop]
+  | cons b rest ih =>
+    have hb := hfit b (by simp)
+    cases rest with
+    | nil =>
+      simp only [List.map, recvLoop]
+      simp only [List.sum_cons, List.sum_nil] at hsum
+      have h1 : ¬ wireLen a m b > (rv.rcv : Int) := by omega
+      have h2 : ¬ (rv.maxMsg ≠ 0 ∧ sum + b > rv.maxMsg) := by
+        intro ⟨h0, hgt⟩; have := hsum h0; omega
+      simp [h1, h2]
+    | cons c rest' =>
+      simp only [List.map, recvLoop]
+      simp only [List.length_cons] at hcnt
+      simp only [List.sum_cons] at hsum
+      have h1 : ¬ wireLen a m b > (rv.rcv : Int) := by omega
+      have h2 : ¬ (rv.maxChunks ≠ 0 ∧ held + 1 > rv.maxChunks) := by
+        intro ⟨h0, hgt⟩; have := hcnt h0; omega
+      simp only [h1, h2, if_false]
+      have := ih (held + 1) (sum + b) (fun x hx => hfit x (by simp [hx]))
+        (fun h0 => by have := hcnt h0; simp only [List.length_cons]; omega)
+        (fun h0 => by have := hsum h0; simp only [List.sum_cons]; omega)
+      simpa [List.map] using this
+
+/-- … and one chunk more than that is refused: with all chunks fitting the buffer, a non-zero
+    MaxChunkCount and `held` + (chunks − 1) above it, the loop answers "too many chunks" -/
+theorem recvLoop_tooMany (a : AlgoParams) (m : Mode) (rv : Ack) (bodies : List Nat) (held sum : Nat)
+    (hfit : ∀ b ∈ bodies, wireLen a m b ≤ (rv.rcv : Int))
+    (h0 : rv.maxChunks ≠ 0) (hheld : held ≤ rv.maxChunks) (hcnt : held + bodies.length > rv.maxChunks + 1) :
+    recvLoop rv (bodies.map fun b => (wireLen a m b, b)) held sum = .tooManyChunks := by
+  induction bodies generalizing held sum with
+  | nil => simp at hcnt; omega
+  | cons b rest ih =>
+    have hb := hfit b (by simp)
+    have h1 : ¬ wireLen a m b > (rv.rcv : Int) := by omega
+    cases rest with
+    | nil => simp at hcnt; omega
+    | cons c rest' =>
+      simp only [List.map, recvLoop, h1, if_false]
+      by_cases h2 : held + 1 > rv.maxChunks
+      · simp [h0, h2]
+      · have h2' : ¬ (rv.maxChunks ≠ 0 ∧ held + 1 > rv.maxChunks) := fun h => h2 h.2
+        simp only [h2', if_false]
+        have := ih (held + 1) (sum + b) (fun x hx => hfit x (by simp [hx])) (by omega)
+          (by simp only [List.length_cons] at hcnt ⊢; omega)
+        simpa [List.map] using this
+
+/-- one observed handshake (hello 4, ack 4, client Conn 4, server Conn 4) is what `negotiate` computes -/
+def rowAgrees : List Nat → Bool
+  | [h1, h2, h3, h4, a1, a2, a3, a4, c1, c2, c3, c4, s1, s2, s3, s4] =>
+    decide (negotiate ⟨h1, h2, h3, h4⟩ ⟨a1, a2, a3, a4⟩ = ⟨⟨c1, c2, c3, c4⟩, ⟨s1, s2, s3, s4⟩⟩)
+  | _ => false
+
 end Opcua.Limits
